@@ -256,6 +256,16 @@ func (p *Pair) Connect(ctx context.Context) (*varlink.Connection, error) {
 	return varlink.NewConnection(ctx, p.ClientAddr())
 }
 
+// reachable: a raw connection to the proxy's listening address can be made right now.
+func (p *Pair) reachable() bool {
+	c, err := net.DialTimeout(p.Proxy.Net, p.Proxy.Dial, 5*time.Second)
+	if err != nil {
+		return false
+	}
+	c.Close()
+	return true
+}
+
 func (p *Pair) Close() (error, bool) {
 	p.Proxy.Close()
 	return p.Rig.Stop()
